@@ -6,6 +6,7 @@ def add(prop, kind, what, scenario="", match=""):
     k.append({"status":"open","property":prop,"kind":kind,"scenario":scenario,"match":match,"what":what})
 lost="subscribe/get/new request outstanding on a resource, then an unsubscribe for the same resource succeeds (it consumes the count taken at request time): the collector disposes the subscription and the outstanding request is never answered"
 add("C07", r"^unanswered-after-unsubscribe:", lost)
+add("C08", r"^unsubscribe-overlap:", "unsubscribe.X succeeds while subscribe.X is outstanding on a resource that stays held indirectly: the unsubscribe consumes the count taken at request time, then the subscribe succeeds; the client counts one direct subscription, the gateway none (same root cause as the lost response of C07)")
 for pp in ["C11","C13","C19"]:
     add(pp, r"^C07:unanswered-after-unsubscribe:", lost)
 dele="delete event (sent by the service, or derived from a system.notFound answer to a query request or re-fetch) for a resource that has a get/subscribe request pending or is referenced/subscribed again afterwards: the deleted subscription is reused with stale data, temporary counts are revoked with an unsubscribe event, and the cache use count is released twice"
